@@ -542,6 +542,8 @@ def run(ctx):
     ctx.replayed = ne + operandpattern.replay(ctx, ["solve"], "solvegrad")
     from vlib import objstate
     ctx.replayed += objstate.replay(ctx, ["solve", "solve-cg"], "solvegrad")
+    from vlib import bwdreuse
+    ctx.replayed += bwdreuse.replay(ctx, ["solve", "solve-cg"], "solvegrad", sample=(120 if ctx.tier == "thorough" else 20))
     ctx.notes.update(exact_instances=len(insts), exact_replayed_cases=ne, table_cases=nt, probe_cases=npb)
     ctx.assumptions += [
         "exact part: L = g.X for one right-hand side and one shift; TLC's rationals compared to 1e-8; cg is replayed only where it reproduces X (arbitrary integer matrices are not positive definite)",
